@@ -264,6 +264,12 @@ func (e *NotExpr) Check(ctx *CheckCtx) error {
 	if err := e.Right.Check(ctx); err != nil {
 		return err
 	}
+	// The name may lead into a cycle of field definitions (select !y as x,
+	// z as y, y + 'a' as z): refuse it before the type of the operand is
+	// asked for, which follows the references
+	if ref := findFieldReferenceCycle(e, map[string]bool{}, map[string]bool{}); ref != nil {
+		return NewSyntaxError(ref.GetPos(), "Field %s is defined in terms of itself", ref.Name.Data)
+	}
 	if e.Right.ReturnType() != TBOOL {
 		return NewSyntaxError(e.Right.GetPos(), "! operator right expression has wrong type")
 	}
